@@ -19,11 +19,17 @@
 package main
 
 import (
+	"bytes"
 	"encoding/json"
+	"flag"
 	"fmt"
 	"os"
+	"os/exec"
+	"runtime/debug"
 	"sort"
 	"strings"
+	"sync"
+	"time"
 
 	"github.com/ccbrown/api-fu/graphql/ast"
 	"github.com/ccbrown/api-fu/graphql/parser"
@@ -155,15 +161,21 @@ func splitLines(s string) []string {
 
 // ---- the Lean side -----------------------------------------------------------------------------
 
-type slot struct{ Alts []obsErr }
+type altErr struct {
+	obsErr
+	Secondary bool
+}
+
+// slot is one error the model says is reported; several alternatives = Go's map iteration picks one.
+type slot struct{ Alts []altErr }
 
 type leanReply struct {
 	Raw       string
 	SpecValid bool
 	Violated  []string
 	HasModel  bool
-	Slots     []slot // model: errors after the primary/secondary filter; several alternatives = Go picks one
-	ModelNote string
+	ModelFuel bool   // the model ran out of fuel (it predicts unbounded recursion)
+	Slots     []slot // model: all errors before the primary/secondary filter
 }
 
 func parseReply(raw string) (leanReply, error) {
@@ -173,7 +185,7 @@ func parseReply(raw string) (leanReply, error) {
 		return out, fmt.Errorf("unexpected driver reply %q", raw)
 	}
 	for _, part := range x.List[1:] {
-		if !part.IsList || len(part.List) == 0 {
+		if !part.IsList || len(part.List) < 2 {
 			return out, fmt.Errorf("unexpected driver reply %q", raw)
 		}
 		switch part.List[0].Atom {
@@ -184,16 +196,18 @@ func parseReply(raw string) (leanReply, error) {
 			}
 		case "model":
 			out.HasModel = true
-			for _, s := range part.List[1:] {
+			out.ModelFuel = part.List[1].Atom == "fuel"
+			for _, s := range part.List[2:] {
 				var sl slot
-				for _, a := range s.List {
-					oe := obsErr{Msg: a.List[0].Atom}
-					for _, l := range a.List[1:] {
+				for _, a := range s.List[1:] {
+					ae := altErr{Secondary: a.List[0].Atom == "x"}
+					ae.Msg = a.List[1].Atom
+					for _, l := range a.List[2:] {
 						var ln, col int
 						fmt.Sscanf(l.Atom, "%d:%d", &ln, &col)
-						oe.Locs = append(oe.Locs, [2]int{ln, col})
+						ae.Locs = append(ae.Locs, [2]int{ln, col})
 					}
-					sl.Alts = append(sl.Alts, oe)
+					sl.Alts = append(sl.Alts, ae)
 				}
 				out.Slots = append(out.Slots, sl)
 			}
@@ -211,68 +225,121 @@ func (l leanReply) violates(rule string) bool {
 	return false
 }
 
-// matchSlots: can the implementation's errors be explained by the model's slots (each slot yields
-// exactly one of its alternatives)? Exact multiset equality for single-alternative slots, bipartite
-// matching for the rest.
-func matchSlots(real []obsErr, slots []slot) string {
-	if len(real) != len(slots) {
-		return fmt.Sprintf("implementation reports %d errors, model %d", len(real), len(slots))
+// assign finds an injective assignment of every error in errs to a slot that lists it among its
+// allowed alternatives (augmenting paths). It returns slot index per error, or nil.
+func assign(errs []obsErr, slots []slot, allowed func(altErr) bool) []int {
+	owner := make([]int, len(slots)) // slot -> error index
+	for i := range owner {
+		owner[i] = -1
 	}
-	used := make([]bool, len(real))
-	var multi []slot
-	for _, s := range slots {
-		if len(s.Alts) != 1 {
-			multi = append(multi, s)
-			continue
-		}
-		found := false
-		for i, e := range real {
-			if !used[i] && e.key() == s.Alts[0].key() {
-				used[i], found = true, true
-				break
-			}
-		}
-		if !found {
-			return "model error not reported by the implementation: " + s.Alts[0].key()
-		}
-	}
-	var rest []obsErr
-	for i, e := range real {
-		if !used[i] {
-			rest = append(rest, e)
-		}
-	}
-	// bipartite matching rest <-> multi
-	matchOf := make([]int, len(rest))
-	for i := range matchOf {
-		matchOf[i] = -1
-	}
-	var try func(si int, seen []bool) bool
-	try = func(si int, seen []bool) bool {
-		for ei, e := range rest {
-			ok := false
-			for _, a := range multi[si].Alts {
-				if a.key() == e.key() {
-					ok = true
-				}
-			}
-			if !ok || seen[ei] {
-				continue
-			}
-			seen[ei] = true
-			if matchOf[ei] < 0 || try(matchOf[ei], seen) {
-				matchOf[ei] = si
+	fits := func(ei, si int) bool {
+		for _, a := range slots[si].Alts {
+			if allowed(a) && a.key() == errs[ei].key() {
 				return true
 			}
 		}
 		return false
 	}
-	for si := range multi {
-		if !try(si, make([]bool, len(rest))) {
-			return fmt.Sprintf("no implementation error matches a model slot with alternatives %v (unmatched implementation errors %v)", multi[si].Alts, rest)
+	var try func(ei int, seen []bool) bool
+	try = func(ei int, seen []bool) bool {
+		for si := range slots {
+			if seen[si] || !fits(ei, si) {
+				continue
+			}
+			seen[si] = true
+			if owner[si] < 0 || try(owner[si], seen) {
+				owner[si] = ei
+				return true
+			}
+		}
+		return false
+	}
+	for ei := range errs {
+		if !try(ei, make([]bool, len(slots))) {
+			return nil
 		}
 	}
-	return ""
+	out := make([]int, len(errs))
+	for si, ei := range owner {
+		if ei >= 0 {
+			out[ei] = si
+		}
+	}
+	return out
+}
+
+// matchSlots: can the implementation's error list be explained by the model? The model lists all
+// errors before the filter of validator.go:82-91 (primary errors if there are any, else all); a
+// slot with several alternatives yields exactly one of them. Exact multiset comparison otherwise.
+func matchSlots(real []obsErr, slots []slot) string {
+	hasSecondary := func(s slot) bool {
+		for _, a := range s.Alts {
+			if a.Secondary {
+				return true
+			}
+		}
+		return false
+	}
+	hasPrimary := func(s slot) bool {
+		for _, a := range s.Alts {
+			if !a.Secondary {
+				return true
+			}
+		}
+		return false
+	}
+	// (A) at least one primary error is picked: the result is exactly the primary picks
+	explainA := func() string {
+		idx := assign(real, slots, func(a altErr) bool { return !a.Secondary })
+		if idx == nil {
+			return "an implementation error is not among the model's primary errors"
+		}
+		if len(real) == 0 {
+			return "no primary error"
+		}
+		used := map[int]bool{}
+		for _, si := range idx {
+			used[si] = true
+		}
+		for si, sl := range slots {
+			if !used[si] && !hasSecondary(sl) {
+				return "a primary error of the model is not reported by the implementation: " + sl.Alts[0].key()
+			}
+		}
+		return ""
+	}
+	// (B) no primary error is picked: every slot yields a secondary alternative
+	explainB := func() string {
+		for _, sl := range slots {
+			if !hasSecondary(sl) {
+				return "the model has a primary error"
+			}
+		}
+		if len(real) != len(slots) {
+			return fmt.Sprintf("implementation reports %d errors, model %d (all secondary)", len(real), len(slots))
+		}
+		if assign(real, slots, func(a altErr) bool { return a.Secondary }) == nil {
+			return "an implementation error is not among the model's secondary errors"
+		}
+		return ""
+	}
+	anyPrimary := false
+	for _, sl := range slots {
+		if hasPrimary(sl) {
+			anyPrimary = true
+		}
+	}
+	if !anyPrimary {
+		return explainB()
+	}
+	a := explainA()
+	if a == "" {
+		return ""
+	}
+	if b := explainB(); b == "" {
+		return ""
+	}
+	return a
 }
 
 // ---- evaluation --------------------------------------------------------------------------------
@@ -345,6 +412,10 @@ func judge(c *Case, ev *evaluated) {
 		return
 	}
 	if ev.lean.HasModel {
+		if ev.lean.ModelFuel {
+			ev.fail = &failure{"correspondence", "the model ran out of fuel (it predicts unbounded recursion) but the implementation answered " + first.stable(), "corr-fuel"}
+			return
+		}
 		for i, r := range ev.runs {
 			if msg := matchSlots(r.Errs, ev.lean.Slots); msg != "" {
 				ev.fail = &failure{"correspondence", fmt.Sprintf("model and implementation disagree (run %d): %s; implementation %v; model %s", i, msg, r.canon(), ev.lean.Raw), "corr"}
@@ -354,40 +425,127 @@ func judge(c *Case, ev *evaluated) {
 	}
 }
 
-func (h *harness) realRuns(c *Case) (*built, *ast.Document, *evaluated, error) {
-	ev := &evaluated{}
-	a, err := c.Schema.build(nil)
+const isolatedTimeout = 20 * time.Second
+const inProcessTimeout = 60 * time.Second
+
+// watchdog: an in-process validation that does not return is reported with its input (the main
+// goroutine is stuck inside the validator then and does not touch the run any more).
+var watch struct {
+	sync.Mutex
+	c     *Case
+	since time.Time
+}
+
+func (h *harness) startWatchdog() {
+	go func() {
+		for {
+			time.Sleep(time.Second)
+			watch.Lock()
+			c, since := watch.c, watch.since
+			watch.Unlock()
+			if c != nil && time.Since(since) > inProcessTimeout {
+				h.run.Violate("property", fmt.Sprintf("validation did not finish within %v (no verdict)", inProcessTimeout), "", false, c)
+				h.run.Finish(nil)
+				os.Exit(0)
+			}
+		}
+	}()
+}
+
+var childMode = flag.Bool("child", false, "internal: read one case (JSON) on stdin, print its validation runs (JSON)")
+
+// prepare builds both schemas and parses the document.
+func prepare(c *Case) (a, b *built, doc *ast.Document, parseErr string, err error) {
+	a, err = c.Schema.build(nil)
 	if err != nil {
-		return nil, nil, nil, fmt.Errorf("schema rejected: %v", err)
+		return nil, nil, nil, "", fmt.Errorf("schema rejected: %v", err)
 	}
-	b, err := c.Schema.build(hx.NewRand(c.ShuffleSeed))
+	b, err = c.Schema.build(hx.NewRand(c.ShuffleSeed))
 	if err != nil {
-		return nil, nil, nil, fmt.Errorf("shuffled schema rejected: %v", err)
+		return nil, nil, nil, "", fmt.Errorf("shuffled schema rejected: %v", err)
 	}
 	doc, perrs := parser.ParseDocument([]byte(c.Query))
 	if len(perrs) > 0 {
-		ev.parseErr = perrs[0].Message
-		return a, nil, ev, nil
+		return a, b, nil, perrs[0].Message, nil
 	}
+	return a, b, doc, "", nil
+}
+
+// validateAll: three runs on the schema as described, two on the schema rebuilt in shuffled order.
+func validateAll(c *Case, a, b *built, doc *ast.Document) []realRun {
 	fs := schema.NewFeatureSet(c.Features...)
+	var runs []realRun
 	for i := 0; i < 3; i++ {
-		ev.runs = append(ev.runs, validateOnce(doc, a.s, fs))
+		runs = append(runs, validateOnce(doc, a.s, fs))
 	}
 	// a fresh parse for the shuffled schema: nothing may be cached on the AST
 	doc2, _ := parser.ParseDocument([]byte(c.Query))
 	for i := 0; i < 2; i++ {
-		ev.runs = append(ev.runs, validateOnce(doc2, b.s, fs))
+		runs = append(runs, validateOnce(doc2, b.s, fs))
 	}
-	return a, doc, ev, nil
+	return runs
+}
+
+// validateIsolated runs the case in a child process: a Go stack overflow is a fatal error that no
+// recover() catches. Used for documents with fragment cycles (where unbounded recursion is possible).
+func validateIsolated(c *Case) []realRun {
+	in, _ := json.Marshal(c)
+	cmd := exec.Command(os.Args[0], "-child")
+	cmd.Stdin = bytes.NewReader(in)
+	var out, errb bytes.Buffer
+	cmd.Stdout = &out
+	cmd.Stderr = &errb
+	err := cmd.Start()
+	timedOut := false
+	if err == nil {
+		done := make(chan error, 1)
+		go func() { done <- cmd.Wait() }()
+		select {
+		case err = <-done:
+		case <-time.After(isolatedTimeout):
+			cmd.Process.Kill()
+			err = <-done
+			timedOut = true
+		}
+	}
+	var runs []realRun
+	if err == nil && json.Unmarshal(out.Bytes(), &runs) == nil && len(runs) == 5 {
+		return runs
+	}
+	msg := "validator killed the process"
+	if timedOut {
+		msg = fmt.Sprintf("validation did not finish within %v", isolatedTimeout)
+	}
+	for _, l := range strings.Split(errb.String(), "\n") {
+		if strings.HasPrefix(l, "fatal error:") || strings.HasPrefix(l, "panic:") {
+			msg += ": " + l
+			break
+		}
+	}
+	return []realRun{{Panic: msg}, {Panic: msg}, {Panic: msg}, {Panic: msg}, {Panic: msg}}
+}
+
+func childMain() {
+	debug.SetMaxStack(48 << 20)
+	var c Case
+	if err := json.NewDecoder(os.Stdin).Decode(&c); err != nil {
+		os.Exit(3)
+	}
+	a, b, doc, perr, err := prepare(&c)
+	if err != nil || perr != "" {
+		os.Exit(3)
+	}
+	json.NewEncoder(os.Stdout).Encode(validateAll(&c, a, b, doc))
 }
 
 // evalOne evaluates a single case interactively (replay, corpus, shrinking).
 func (h *harness) evalOne(c *Case) (*evaluated, error) {
-	a, doc, ev, err := h.realRuns(c)
+	a, b, doc, perr, err := prepare(c)
 	if err != nil {
 		return nil, err
 	}
-	if ev.parseErr != "" {
+	ev := &evaluated{parseErr: perr}
+	if perr != "" {
 		return ev, nil
 	}
 	if h.model != nil {
@@ -405,8 +563,32 @@ func (h *harness) evalOne(c *Case) (*evaluated, error) {
 		}
 		ev.lean = &lr
 	}
+	ev.runs = h.runReal(c, a, b, doc, ev.lean)
 	judge(c, ev)
 	return ev, nil
+}
+
+// runReal validates in-process, or in a child process when the document has fragment cycles (or,
+// without the Lean side, whenever it has fragments at all).
+func (h *harness) runReal(c *Case, a, b *built, doc *ast.Document, lean *leanReply) []realRun {
+	risky := false
+	if lean != nil {
+		risky = lean.violates("noFragmentCycles")
+	} else {
+		risky = strings.Contains(c.Query, "fragment")
+	}
+	if risky || c.Stream == "corpus" {
+		h.run.Count("isolated-in-child-process")
+		return validateIsolated(c)
+	}
+	watch.Lock()
+	watch.c, watch.since = c, time.Now()
+	watch.Unlock()
+	runs := validateAll(c, a, b, doc)
+	watch.Lock()
+	watch.c = nil
+	watch.Unlock()
+	return runs
 }
 
 func features(q string) map[string]bool {
@@ -433,6 +615,10 @@ func (h *harness) record(c *Case, ev *evaluated) {
 		if c.Stream == "valid" {
 			if !ev.lean.SpecValid {
 				run.Count("gen:valid-stream-but-spec-invalid")
+				if os.Getenv("C04_DEBUG") != "" {
+					sj, _ := json.Marshal(c.Schema)
+					fmt.Fprintf(os.Stderr, "GEN-INVALID %v: %s\n   impl: %v\n   schema: %s\n", ev.lean.Violated, c.gdoc.print(nil), ev.runs[0].canon(), sj)
+				}
 				for _, r := range ev.lean.Violated {
 					run.Count("gen:valid-stream-violates:" + r)
 				}
@@ -721,6 +907,12 @@ func printReplay(c *Case, ev *evaluated) {
 }
 
 func main() {
+	for _, a := range os.Args[1:] {
+		if a == "-child" || a == "--child" {
+			childMain()
+			return
+		}
+	}
 	run := hx.Init("C04")
 	h := &harness{run: run, muts: mutations()}
 	if run.ModelPath != "" {
@@ -732,6 +924,7 @@ func main() {
 		h.model = m
 		defer m.Close()
 	}
+	h.startWatchdog()
 	run.SetRule("cases = (generated schema, feature set, document); documents are generated valid-by-construction (type-directed: fragments reached along several paths, aliases, identical overlapping fields, variables in nested input positions, directives with literals and variables, introspection fields, abstract types with fragments) and then optionally mutated by one of 30 rule-targeted mutations; distinct = distinct (schema, features, document text); non-trivial = a valid document using at least two of {fragment spread, inline fragment, variable, directive, introspection field}, or a mutant whose targeted rule the Lean specification reports as violated")
 
 	if run.Replay != "" {
@@ -839,25 +1032,32 @@ func main() {
 	run.Finish(h.model)
 }
 
-// runBatch evaluates a batch: real runs first, then one pipelined exchange with the driver.
+// runBatch evaluates a batch: one pipelined exchange with the driver, then the real runs.
 func (h *harness) runBatch(batch []*Case) {
 	type item struct {
-		c     *Case
-		ev    *evaluated
-		reply int // index of the reply line (-1: none)
+		c      *Case
+		ev     *evaluated
+		a, b   *built
+		doc    *ast.Document
+		reply  int // index of the reply line (-1: none)
+		schema int // index of the reply to a schema line sent for this item (-1: none)
 	}
 	var items []item
 	var lines []string
 	for _, c := range batch {
-		a, doc, ev, err := h.realRuns(c)
+		a, b, doc, perr, err := prepare(c)
 		if err != nil {
 			h.run.Note("case cannot be evaluated: %v", err)
 			h.run.Count("gen:case-error")
 			continue
 		}
-		it := item{c, ev, -1}
-		if ev.parseErr == "" && h.model != nil {
-			lines = append(lines, h.leanLines(c, a, doc)...)
+		it := item{c: c, ev: &evaluated{parseErr: perr}, a: a, b: b, doc: doc, reply: -1, schema: -1}
+		if perr == "" && h.model != nil {
+			ls := h.leanLines(c, a, doc)
+			if len(ls) == 2 {
+				it.schema = len(lines)
+			}
+			lines = append(lines, ls...)
 			it.reply = len(lines) - 1
 		}
 		items = append(items, it)
@@ -874,6 +1074,10 @@ func (h *harness) runBatch(batch []*Case) {
 		}
 	}
 	for _, it := range items {
+		if it.schema >= 0 && replies[it.schema] != "ok" {
+			h.run.Violate("harness", "driver rejected the schema description: "+replies[it.schema], "", true, it.c)
+			continue
+		}
 		if it.reply >= 0 {
 			lr, err := parseReply(replies[it.reply])
 			if err != nil {
@@ -883,6 +1087,7 @@ func (h *harness) runBatch(batch []*Case) {
 			it.ev.lean = &lr
 		}
 		if it.ev.parseErr == "" {
+			it.ev.runs = h.runReal(it.c, it.a, it.b, it.doc, it.ev.lean)
 			judge(it.c, it.ev)
 		}
 		h.process(it.c, it.ev)
